@@ -98,7 +98,7 @@ def scenario(sim: Sim) -> None:
         live_reg: dict[str, dict[str, Any]] = {}
         live_op: dict[str, dict[str, Any]] = {}
         pending_results: list[Any] = []
-        for _ in range(ch.int_between("nevents", 8, 40)):
+        for _ in range(ch.int_between("nevents", 8, sim.scale(40, 100))):
             kind = ch.weighted("event", [5, 4, 5, 3, 2])
             if kind in (0, 1):
                 a = (regs if kind == 0 else ops)[ch.draw("actor", nreg if kind == 0 else nop)]
